@@ -61,9 +61,11 @@ fn main() {
     // limit is reported as `=> timeout` and the rest of the shard continues in a child process
     let limit_ms: u64 = std::env::var("HARNESS_CASE_TIMEOUT_MS").ok().and_then(|v| v.parse().ok()).unwrap_or(20_000);
     let started = std::sync::Arc::new(std::sync::atomic::AtomicU64::new(0));
+    // set by the watchdog when it takes over: from then on the main thread writes nothing
+    let abandoned = std::sync::Arc::new(std::sync::atomic::AtomicBool::new(false));
     let current = std::sync::Arc::new(std::sync::atomic::AtomicU64::new(from));
     {
-        let (started, current) = (started.clone(), current.clone());
+        let (started, current, abandoned) = (started.clone(), current.clone(), abandoned.clone());
         let args = args.clone();
         let end = from + cases;
         let stream_name = stream.to_string();
@@ -75,6 +77,13 @@ fn main() {
                 let st = started.load(SeqCst);
                 if st != 0 && (t0.elapsed().as_millis() as u64).saturating_sub(st) > limit_ms {
                     let idx = current.load(SeqCst);
+                    {
+                        // taken under the stdout lock so that the main thread is not in the
+                        // middle of writing a line
+                        let out = std::io::stdout();
+                        let _guard = out.lock();
+                        abandoned.store(true, SeqCst);
+                    }
                     {
                         let out = std::io::stdout();
                         let mut out = out.lock();
@@ -149,6 +158,14 @@ fn main() {
         started.store(0, std::sync::atomic::Ordering::SeqCst);
         let out = std::io::stdout();
         let mut out = out.lock();
+        if abandoned.load(std::sync::atomic::Ordering::SeqCst) {
+            // the watchdog reported this case as timed out and a child process continues the
+            // shard: stay silent until the process exits
+            drop(out);
+            loop {
+                std::thread::sleep(std::time::Duration::from_secs(3600));
+            }
+        }
         for l in lines {
             writeln!(out, "{}", l).unwrap();
         }
